@@ -67,6 +67,7 @@ class Pipe:
         if t is not None and t.proc is not None:
             # who wrote how much (all pipes and sockets of the process together)
             t.proc.bytes_written = getattr(t.proc, "bytes_written", 0) + len(data)
+            t.bytes_written += len(data)
         if len(self.wire) < (64 << 20):
             self.wire += data
         if not self.discard:
